@@ -253,14 +253,13 @@ class BuildAssembly(Assembly):
                         # Last added row was not the previous row in the
                         # scaffold
                         between = scffld.rows[last_added_i + 1 : i]
-                        prev_row = scffld.rows[i - 1]
                         if all(isinstance(row, Gap) for row in between):
                             # Only gaps separate the two contigs: keep them all
                             for row in between:
                                 new_scffld.add_row(row)
-                        elif isinstance(prev_row, Gap):
-                            new_scffld.add_row(prev_row)
                         else:
+                            # Contigs placed elsewhere lay between these two,
+                            # which were not neighbours in the input
                             new_scffld.add_row(self.default_gap)
                     new_scffld.add_row(frag)
                     last_added_i = i
